@@ -11,7 +11,7 @@ the stack."
 list-stack (head of the list = most recently pushed element still present): in one cycle a
 read pops, then a write pushes, a clear empties.  `stored d is` is the content (top first) of
 the real structure after the history `is` from reset.  All theorems are for every depth
-`d ≥ 1` (power of two or not), every data value, every history of simultaneous call attempts.
+`d ≥ 0` (power of two or not; the real Stack elaborates with depth 0 and is then never ready), every data value, every history of simultaneous call attempts.
 -/
 namespace TxV.Stack
 open TxV.QueueUtil
@@ -20,34 +20,34 @@ def after (d : Nat) (is : List In) : State := (run d (init d) is).1
 /-- elements on the stack after a history from reset, most recently pushed first -/
 def stored (d : Nat) (is : List In) : List Nat := abs (after d is)
 
-theorem inv_after (d : Nat) (hd : 0 < d) (is : List In) : Inv d (after d is) :=
-  (run_refines is (inv_init d hd)).1
+theorem inv_after (d : Nat) (is : List In) : Inv d (after d is) :=
+  (run_refines is (inv_init d)).1
 
--- OBLIGATION c16_refines : Stack (every depth ≥ 1, every history) is observationally the bounded list-stack: same done bits, returned data and readiness every cycle, and its content is the list's
-theorem c16_refines (d : Nat) (hd : 0 < d) (is : List In) :
+-- OBLIGATION c16_refines : Stack (every depth, every history) is observationally the bounded list-stack: same done bits, returned data and readiness every cycle, and its content is the list's
+theorem c16_refines (d : Nat) (is : List In) :
     (run d (init d) is).2 = (specRun d [] is).2 ∧ stored d is = (specRun d [] is).1 := by
-  have := run_refines is (inv_init d hd)
+  have := run_refines is (inv_init d)
   rw [abs_init] at this
   exact ⟨this.2.1, this.2.2⟩
 
 -- OBLIGATION c16_read : after every history, an executed read returns the most recently pushed element still present and removes it (alone in its cycle: the rest of the stack is what remains)
-theorem c16_read (d : Nat) (hd : 0 < d) (is : List In) (x : Nat) (rest : List Nat) (p : Bool)
+theorem c16_read (d : Nat) (is : List In) (x : Nat) (rest : List Nat) (p : Bool)
     (h : stored d is = x :: rest) :
     (step d (after d is) ⟨none, true, p, false⟩).2.rd = some x ∧
     stored d (is ++ [⟨none, true, p, false⟩]) = rest := by
-  have hinv := inv_after d hd is
+  have hinv := inv_after d is
   obtain ⟨_, h2, h3⟩ := refines hinv ⟨none, true, p, false⟩
   unfold stored after at *
   rw [run_snoc, h2, h3, h]
   simp [specStep]
 
 -- OBLIGATION c16_peek : peek returns the most recently pushed element still present without removing it: attempting peek changes neither the next state nor the other methods' outcomes
-theorem c16_peek (d : Nat) (hd : 0 < d) (is : List In) (i : In) :
+theorem c16_peek (d : Nat) (is : List In) (i : In) :
     (∀ x rest, stored d is = x :: rest → i.p = true → (step d (after d is) i).2.pk = some x) ∧
     (step d (after d is) i).1 = (step d (after d is) { i with p := false }).1 ∧
     (step d (after d is) i).2.rd = (step d (after d is) { i with p := false }).2.rd ∧
     (step d (after d is) i).2.wr = (step d (after d is) { i with p := false }).2.wr := by
-  have hinv := inv_after d hd is
+  have hinv := inv_after d is
   refine ⟨?_, by simp [step], by simp [step], by simp [step]⟩
   intro x rest h hp
   have h2 := (refines hinv i).2.1
@@ -56,14 +56,14 @@ theorem c16_peek (d : Nat) (hd : 0 < d) (is : List In) (i : In) :
   simp [specStep, hp]
 
 -- OBLIGATION c16_read_write : read and write executing in the same cycle act as a read followed by a push: the read returns the old top, and the resulting stack equals the one after a read-only cycle followed by a write-only cycle
-theorem c16_read_write (d : Nat) (hd : 0 < d) (is : List In) (x v : Nat) (rest : List Nat) (p : Bool)
+theorem c16_read_write (d : Nat) (is : List In) (x v : Nat) (rest : List Nat) (p : Bool)
     (h : stored d is = x :: rest) (hfull : (stored d is).length < d) :
     (step d (after d is) ⟨some v, true, p, false⟩).2.rd = some x ∧
     (step d (after d is) ⟨some v, true, p, false⟩).2.wr = some v ∧
     stored d (is ++ [⟨some v, true, p, false⟩]) = v :: rest ∧
     stored d (is ++ [⟨some v, true, p, false⟩])
       = stored d (is ++ [⟨none, true, false, false⟩, ⟨some v, false, false, false⟩]) := by
-  have hinv := inv_after d hd is
+  have hinv := inv_after d is
   obtain ⟨_, h2, h3⟩ := refines hinv ⟨some v, true, p, false⟩
   obtain ⟨k1, _, k3⟩ := refines hinv ⟨none, true, false, false⟩
   obtain ⟨_, _, l3⟩ := refines k1 ⟨some v, false, false, false⟩
@@ -78,7 +78,7 @@ theorem c16_read_write (d : Nat) (hd : 0 < d) (is : List In) (x v : Nat) (rest :
   simp [specStep, hne, hne']
 
 -- OBLIGATION c16_ready : after every history, read and peek are ready (execute when attempted) iff the stack is non-empty, write iff it holds fewer than depth elements, clear always
-theorem c16_ready (d : Nat) (hd : 0 < d) (is : List In) (i : In) :
+theorem c16_ready (d : Nat) (is : List In) (i : In) :
     let o := (step d (after d is) i).2
     (o.rrdy = true ↔ stored d is ≠ []) ∧
     (o.wrdy = true ↔ (stored d is).length < d) ∧
@@ -86,7 +86,7 @@ theorem c16_ready (d : Nat) (hd : 0 < d) (is : List In) (i : In) :
     (o.pk.isSome = true ↔ (i.p = true ∧ stored d is ≠ [])) ∧
     (o.wr = if (stored d is).length < d then i.w else none) ∧
     (o.clr = i.c) := by
-  have hinv := inv_after d hd is
+  have hinv := inv_after d is
   have hlen : (stored d is).length = (after d is).level := abs_length hinv
   have hne : stored d is ≠ [] ↔ (after d is).level ≠ 0 := by
     rw [← hlen]; cases stored d is <;> simp
@@ -114,8 +114,8 @@ theorem c16_clear (d : Nat) (is : List In) (i : In) (hc : i.c = true) :
   · intro j; simp [step, ha]
 
 -- OBLIGATION c16_bounded : the stack never holds more than depth elements
-theorem c16_bounded (d : Nat) (hd : 0 < d) (is : List In) : (stored d is).length ≤ d := by
-  have hinv := inv_after d hd is
+theorem c16_bounded (d : Nat) (is : List In) : (stored d is).length ≤ d := by
+  have hinv := inv_after d is
   have : (stored d is).length = (after d is).level := abs_length hinv
   have := hinv.hl
   omega
